@@ -766,10 +766,14 @@ theorem step_inv {s : St} (h : Inv s) (op : Op) : Inv (step s op).1 := by
   | crash d torn =>
     simp only [step]
     split
-    · rename_i hc
-      simp only [crashOK, Bool.and_eq_true, decide_eq_true_eq] at hc
-      exact crashStep_inv h d hc.1.1
     · exact h
+    · rename_i hc
+      have hc' : crashOK s d = true := by simpa using hc
+      simp only [crashOK, Bool.and_eq_true, decide_eq_true_eq] at hc'
+      have hi := crashStep_inv h d hc'.1.1
+      split
+      · exact hi   -- tornStep differs from crashStep only in `closed` and `down`, which the invariant does not mention
+      · exact hi
   | ready => exact readyStep_inv h
 
 theorem run_inv : ∀ (ops : List Op) (s : St), Inv s → Inv (run s ops) := by
